@@ -338,11 +338,14 @@ class SingleLoss:
         return mean_over(tuple(a for a in s.axes), s)
 
 
+OMITTED = object()
+
+
 class SystemLoss:
     """abstract SystemLossODE / SystemLossPDE built through the repository's constructor"""
 
     def __init__(self, E, eq_type, net_kind='PINN', unknowns=('a', 'b'), equations=('e1', 'e2'), d=2, terms=('dyn', 'ic'),
-                 weights='scalar', eq_keys=('nu',), m_res=None, derivative_keys_dict=None, reverse_dicts=False, specs=None):
+                 weights='scalar', eq_keys=('nu',), m_res=None, derivative_keys_dict=None, reverse_dicts=False, specs=None, wprefix='w'):
         """specs: {unknown: dict(m_u=.., bc_dim=.., obs_slice=..)} per-unknown output count, boundary component selection and
         observed slice (handed to the constructor as omega_boundary_dim_dict / obs_slice_dict)"""
         self.E, self.eq_type, self.net_kind, self.d = E, eq_type, net_kind, d
@@ -373,18 +376,22 @@ class SystemLoss:
             keys = equations if n == 'dyn_loss' else unknowns
             kind = weights if isinstance(weights, str) else weights.get(n, 'scalar')
             if kind == 'scalar':
-                v = sc('w_' + n)
+                v = sc(wprefix + '_' + n)
                 self.wspec[n] = ({k: v.data[()] for k in keys}, v)
             elif kind in ('dict', 'dict_rev'):
-                dct = {k: sc(f'w_{n}_{k}') for k in (keys if kind == 'dict' else tuple(reversed(keys)))}
+                dct = {k: sc(f'{wprefix}_{n}_{k}') for k in (keys if kind == 'dict' else tuple(reversed(keys)))}
                 self.wspec[n] = ({k: x.data[()] for k, x in dct.items()}, rv(dct))
             elif kind == 'none':
                 self.wspec[n] = ({k: Poly.const(0) for k in keys}, None)
             elif kind == 'float':
                 self.wspec[n] = ({k: Poly.const(2) for k in keys}, 2.0)
+            elif kind == 'omitted':
+                # the field is not passed at all: the declared default of the weights class applies (1.0 for PDE systems, as
+                # documented for the single-loss weights)
+                self.wspec[n] = ({k: Poly.const(1) for k in keys}, OMITTED)
             else:
                 raise ValueError(kind)
-        lw = LWD(**{n: self.wspec[n][1] for n in names})
+        lw = LWD(**{n: self.wspec[n][1] for n in names if self.wspec[n][1] is not OMITTED})
         # per-unknown specifications through single-loss builders (only used to produce the constructor arguments
         # and the per-unknown reference terms)
         self.singles = {}
